@@ -11,15 +11,15 @@ import (
 
 // WorkerArgs configure one worker process.
 type WorkerArgs struct {
-	ID      string
-	Seed    int64
-	Tier    string
-	From    int
-	To      int
-	Skip    map[int]bool
-	Out     string
-	Journal string
-	Variant string
+	ID       string
+	Seed     int64
+	Tier     string
+	From     int
+	To       int
+	Skip     map[int]bool
+	Out      string
+	Journal  string
+	Variant  string
 	MemLimit uint64
 }
 
